@@ -22,14 +22,14 @@ class Refuse(Exception):
     pass
 
 
-def clang_ast(repo, filt="add_"):
-    src = os.path.join(repo, "src/phreeqcpp/step.cpp")
+def clang_ast(repo, filt="add_", srcfile="src/phreeqcpp/step.cpp"):
+    src = os.path.join(repo, srcfile)
     incs = ["-I" + os.path.join(repo, i) for i in ("src", "src/phreeqcpp", "src/phreeqcpp/common", "src/phreeqcpp/PhreeqcKeywords")]
     cmd = ["clang++", "-std=c++14", "-fsyntax-only", "-w", "-DIPHREEQC_VERIF", "-DSWIG_SHARED_OBJ", "-DUSE_PHRQ_ALLOC"] + incs + \
           ["-Xclang", "-ast-dump=json", "-Xclang", "-ast-dump-filter=" + filt, src]
     p = subprocess.run(cmd, stdout=subprocess.PIPE, stderr=subprocess.PIPE, text=True, timeout=300)
     if p.returncode != 0 or not p.stdout.strip():
-        raise Refuse("clang failed on step.cpp: " + p.stderr[-1500:])
+        raise Refuse("clang failed on %s: " % srcfile + p.stderr[-1500:])
     dec = json.JSONDecoder()
     s = p.stdout
     i = 0
@@ -426,7 +426,10 @@ class AccWalk:
         if k == "CXXMemberCallExpr":
             m = strip(kids(n)[0])
             if m.get("kind") == "MemberExpr":
-                return "%s.%s" % (self.obj_name(kids(m)[0]), m["name"])
+                base = "%s.%s" % (self.obj_name(kids(m)[0]), m["name"])
+                if getattr(self, "full_calls", False) and strip(kids(m)[0]).get("kind") == "CXXThisExpr" and len(kids(n)) > 1:
+                    return "%s(%s)" % (base, ",".join(self.rend(a) for a in kids(n)[1:]))
+                return base
         if k == "MemberExpr":
             b = strip(kids(n)[0])
             if b.get("kind") == "CXXThisExpr":
@@ -636,11 +639,42 @@ Local Open Scope string_scope.
 """
 
 
+# ------------------------------------------------------------------------------------------------ part D
+
+def gen_same_model(repo):
+    """Phreeqc::check_same_model (prep.cpp): every condition under which the cached equation set is declared
+    NOT reusable (`if (c) return FALSE`), as path condition /\ c."""
+    fns, srcbytes = clang_ast(repo, "check_same_model", "src/phreeqcpp/prep.cpp")
+    if "check_same_model" not in fns:
+        raise Refuse("Phreeqc::check_same_model not found in prep.cpp")
+    w = AccWalk(fns["check_same_model"], srcbytes)
+    w.full_calls = True
+    conds = []
+
+    def is_false_return(st):
+        if st.get("kind") == "CompoundStmt" and len(kids(st)) == 1:
+            st = kids(st)[0]
+        if st.get("kind") != "ReturnStmt" or not kids(st):
+            return False
+        v = strip(kids(st)[0])
+        return v.get("kind") == "IntegerLiteral" and v.get("value") == "0"
+
+    def walk(n):
+        if n.get("kind") == "IfStmt" and len(kids(n)) >= 2 and is_false_return(kids(n)[1]):
+            conds.append(w.gx(kids(n)[0]))
+        for c in kids(n):
+            walk(c)
+
+    walk([c for c in kids(fns["check_same_model"]) if c.get("kind") == "CompoundStmt"][0])
+    return ("(* conditions under which Phreeqc::check_same_model refuses to reuse the previously built equations *)\n"
+            "Definition gen_same_model : list gexp :=\n  [\n" + ";\n".join("  " + c for c in sorted(set(conds))) + "\n  ].\n")
+
+
 def generate(repo):
     fns, srcbytes = clang_ast(repo)
     more, _ = clang_ast(repo, "reaction_calc")
     fns.update(more)
-    return HEADER + gen_step(fns, srcbytes) + "\n" + gen_acc(fns, srcbytes)
+    return HEADER + gen_step(fns, srcbytes) + "\n" + gen_acc(fns, srcbytes) + "\n" + gen_same_model(repo)
 
 
 if __name__ == "__main__":
